@@ -92,7 +92,7 @@ def templates(tier, seed):
     # chains of reuse (an instance that is itself a reuse), computed template ids, templates reading $id
     # templates placed through a transform (polygon, polyline, path), also at offsets that are zero or negative; classes of the
     # reuse element are evaluated where the reuse element stands (before its own bindings apply)
-    for form in ("polygon", "polyline", "path", "class-rebinding", "class-rebinding-loop", "line", "text", "two-valued-binding", "one-valued-binding",
+    for form in ("polygon", "polyline", "path", "class-rebinding", "class-rebinding-loop", "line", "text", "two-valued-binding", "one-valued-binding", "compound-expr-spaces", "compound-expr-nospaces",
                  "group-defaults-wh", "group-defaults-other", "group-defaults-none", "style-both", "style-both-group", "style-reuse-only", "style-template-only", "recursive-bounded"):
         tds.append(dict(fam="reuse-forms2", form=form))
     for form in ("chain-bind", "chain-bind3", "chain-bind-shape", "chain2", "chain2-group", "chain3", "computed-id", "computed-id-loop", "reads-id", "reads-id-class", "reads-id-shadow"):
@@ -371,6 +371,10 @@ def build(td, wrong=False):
         elif form == "two-valued-binding":
             d0 = f'<svg><specs><rect id="t" wh="$size"/></specs><reuse href="#t" size="{W} {H}" x="{X}" y="{Y}"/></svg>'
             d1 = f'<svg><rect xy="{X} {Y}" wh="{W} {H}" class="t"/></svg>'
+        elif form in ("compound-expr-spaces", "compound-expr-nospaces"):
+            ex = "{{$s * 2}}" if form.endswith("-spaces") else "{{$s*2}}"
+            d0 = f'<svg><specs><rect id="t" wh="{ex} $s"/></specs><reuse href="#t" s="{W}" x="{X}" y="{Y}"/></svg>'
+            d1 = f'<svg><rect xy="{X} {Y}" wh="{{{{{W} * 2}}}} {W}" class="t"/></svg>'
         elif form == "one-valued-binding":
             d0 = f'<svg><specs><rect id="t" wh="$size"/></specs><reuse href="#t" size="{W}" x="{X}" y="{Y}"/></svg>'
             d1 = f'<svg><rect xy="{X} {Y}" wh="{W}" class="t"/></svg>'
@@ -561,7 +565,7 @@ def build(td, wrong=False):
         role = "C18/nested-reuse-placement-and-size"     # role signature of an open finding
     if fam == "reuse-forms2" and td["form"] in ("line", "text"):
         role = "C18/line-and-text-templates"
-    if fam == "reuse-forms2" and td["form"] == "two-valued-binding":
+    if fam == "reuse-forms2" and td["form"] in ("two-valued-binding", "compound-expr-spaces"):
         role = "C18/two-valued-binding"
     return Template(name, [d0, d1], vars_, check, family=fam, role=role, cap=8, assume=assume)
 
